@@ -124,12 +124,17 @@ func TestVerifC05Interest(t *testing.T) {
 					}
 				}
 			}
+			// (a fifth of the cases join most topics fanout-only: subscriptions there are never announced, relays are)
+			foP := 0.15
+			if c.Chance(0.2) {
+				foP = 0.6
+			}
 			handle := func(x *c05Node, t string) (*Topic, error) {
 				if h := x.handles[t]; h != nil {
 					return h, nil
 				}
 				var opts []TopicOpt
-				fo := c.Chance(0.15)
+				fo := c.Chance(foP)
 				if fo {
 					opts = append(opts, FanoutOnly())
 				}
@@ -212,7 +217,49 @@ func TestVerifC05Interest(t *testing.T) {
 				if x.scores != nil && c.Chance(0.2) {
 					opk = 16
 				}
+				if smallQ && c.Chance(0.08) {
+					opk = 17
+				}
 				switch opk {
+				case 17:
+					// A topic with announced subscriptions is given up and joined again fanout-only within the same instant, while the
+					// announcements queue up behind a full outbound queue: the withdrawal may be dropped and has to be retried although
+					// the topic has a (never announced) subscription again by then.
+					h := x.handles[t]
+					if h == nil || x.fanout[t] || len(x.subs[t]) == 0 || len(x.relays[t]) > 0 {
+						break
+					}
+					// fill the queues: a few announcements of a throw-away topic
+					x.everInt["filler"] = true
+					if th, err := x.nd.ps.Join("filler"); err == nil {
+						for k := 0; k < 3; k++ {
+							if fs, err := th.Subscribe(); err == nil {
+								fs.Cancel()
+							}
+						}
+						defer th.Close()
+					}
+					for _, s := range x.subs[t] {
+						s.Cancel()
+						x.dead = append(x.dead, s)
+					}
+					x.subs[t] = nil
+					if err := h.Close(); err != nil {
+						fail(map[string]string{"kind": "topic_close_result"}, "%s.Close(%s) returned %v with no subscription and no relay left", x.nd.name, t, err)
+						break
+					}
+					delete(x.handles, t)
+					delete(x.fanout, t)
+					nh, err := x.nd.ps.Join(t, FanoutOnly())
+					if err != nil {
+						break
+					}
+					x.handles[t], x.fanout[t] = nh, true
+					if s, err := nh.Subscribe(); err == nil {
+						x.subs[t] = append(x.subs[t], s)
+					}
+					note("%s.rejoin_fanout_only(%s)", x.nd.name, t)
+					c.Count("rejoined_fanout_only", 1)
 				case 16:
 					// the node's opinion of one of the others changes: far below the graylist threshold, or back to neutral
 					y := nodes[c.Intn(N)]
